@@ -416,4 +416,170 @@ theorem TickMultiplier_tail_translation_refines_model (cE cS bE bS : BitVec 64) 
   simp only [h0, h1, decide_eq_true_eq, ← toInt_sdiv_wrap]
   (repeat' split) <;> simp_all
   rename_i heq; rw [← heq, BitVec.ofInt_toInt]
+/-! ### round 6 — loops and tables -/
+
+/-- C12: `pow.greaterDifficulty` (loop from byte 7 down to byte 0) on two 8-byte slices = the hand model -/
+theorem greaterDifficulty_translation_refines_model (x y : List Nat) (hx : x.length = 8) (hy : y.length = 8) :
+    Translated.greaterDifficulty x y = .ok (Pow.greaterDifficulty x y) := by
+  have hidx : Go.downS 7#64 18446744073709551615#64 = [7#64, 6#64, 5#64, 4#64, 3#64, 2#64, 1#64, 0#64] := by decide
+  match x, hx with
+  | [a0, a1, a2, a3, a4, a5, a6, a7], _ =>
+  match y, hy with
+  | [b0, b1, b2, b3, b4, b5, b6, b7], _ =>
+  unfold Translated.greaterDifficulty
+  rw [hidx]
+  simp only [Go.forIn, Go.oobS, Go.atB, Go.loopThen, Pow.greaterDifficulty, Pow.geMSB, List.reverse_cons, List.reverse_nil,
+    List.nil_append, List.cons_append, List.length_cons, List.length_nil]
+  have t7 : (7#64).toNat = 7 := by decide
+  have t6 : (6#64).toNat = 6 := by decide
+  have t5 : (5#64).toNat = 5 := by decide
+  have t4 : (4#64).toNat = 4 := by decide
+  have t3 : (3#64).toNat = 3 := by decide
+  have t2 : (2#64).toNat = 2 := by decide
+  have t1 : (1#64).toNat = 1 := by decide
+  have t0 : (0#64).toNat = 0 := by decide
+  have i7 : (7#64).toInt = 7 := by decide
+  have i6 : (6#64).toInt = 6 := by decide
+  have i5 : (5#64).toInt = 5 := by decide
+  have i4 : (4#64).toInt = 4 := by decide
+  have i3 : (3#64).toInt = 3 := by decide
+  have i2 : (2#64).toInt = 2 := by decide
+  have i1 : (1#64).toInt = 1 := by decide
+  have i0 : (0#64).toInt = 0 := by decide
+  simp only [t7, t6, t5, t4, t3, t2, t1, t0, i7, i6, i5, i4, i3, i2, i1, i0, List.getD_cons_succ, List.getD_cons_zero,
+    Nat.reduceAdd, Nat.reduceLeDiff, Int.reduceLT, decide_false, Bool.or_self, Bool.false_eq_true, if_false, decide_eq_true_eq,
+    beq_iff_eq, gt_iff_lt, ite_self]
+  by_cases h7 : b7 < a7
+  · simp [h7]
+  by_cases g7 : a7 < b7
+  · simp [h7, g7]
+  by_cases h6 : b6 < a6
+  · simp [h7, g7, h6]
+  by_cases g6 : a6 < b6
+  · simp [h7, g7, h6, g6]
+  by_cases h5 : b5 < a5
+  · simp [h7, g7, h6, g6, h5]
+  by_cases g5 : a5 < b5
+  · simp [h7, g7, h6, g6, h5, g5]
+  by_cases h4 : b4 < a4
+  · simp [h7, g7, h6, g6, h5, g5, h4]
+  by_cases g4 : a4 < b4
+  · simp [h7, g7, h6, g6, h5, g5, h4, g4]
+  by_cases h3 : b3 < a3
+  · simp [h7, g7, h6, g6, h5, g5, h4, g4, h3]
+  by_cases g3 : a3 < b3
+  · simp [h7, g7, h6, g6, h5, g5, h4, g4, h3, g3]
+  by_cases h2 : b2 < a2
+  · simp [h7, g7, h6, g6, h5, g5, h4, g4, h3, g3, h2]
+  by_cases g2 : a2 < b2
+  · simp [h7, g7, h6, g6, h5, g5, h4, g4, h3, g3, h2, g2]
+  by_cases h1 : b1 < a1
+  · simp [h7, g7, h6, g6, h5, g5, h4, g4, h3, g3, h2, g2, h1]
+  by_cases g1 : a1 < b1
+  · simp [h7, g7, h6, g6, h5, g5, h4, g4, h3, g3, h2, g2, h1, g1]
+  by_cases h0 : b0 < a0
+  · simp [h7, g7, h6, g6, h5, g5, h4, g4, h3, g3, h2, g2, h1, g1, h0]
+  by_cases g0 : a0 < b0
+  · simp [h7, g7, h6, g6, h5, g5, h4, g4, h3, g3, h2, g2, h1, g1, h0, g0]
+  simp [h7, g7, h6, g6, h5, g5, h4, g4, h3, g3, h2, g2, h1, g1, h0, g0]
+
+example : Translated.greaterDifficulty [0,0,0,0,0,0,0,1] [255,255,255,255,255,255,255,0] = .ok true := by decide
+
+/-- …and it panics (index out of range) when a slice is shorter than 8 bytes -/
+theorem greaterDifficulty_short_panics (x y : List Nat) (h : x.length < 8 ∨ y.length < 8) :
+    Translated.greaterDifficulty x y = .panic := by
+  have hidx : Go.downS 7#64 18446744073709551615#64 = [7#64, 6#64, 5#64, 4#64, 3#64, 2#64, 1#64, 0#64] := by decide
+  have t7 : (7#64).toNat = 7 := by decide
+  have i7 : (7#64).toInt = 7 := by decide
+  unfold Translated.greaterDifficulty
+  rw [hidx]
+  have hb : (Go.oobS x 7#64 || Go.oobS y 7#64) = true := by
+    simp only [Go.oobS, t7, i7, Bool.or_eq_true, decide_eq_true_eq]; omega
+  simp only [Go.forIn, hb, if_true, Go.loopThen]
+
+/-- embedding of the reward model's answer (`none` = run-time panic) -/
+def rewardEmb : Option Int → Res (BitVec 64)
+  | none => .panic
+  | some v => .ok (BitVec.ofInt 64 v)
+
+theorem NetworkZnnRewardPerEpoch_translation_refines_model (e : BitVec 64) :
+    Translated.NetworkZnnRewardPerEpoch e = rewardEmb (Rewards.networkZnnRewardPerEpoch e.toNat) := by
+  have hlen : Go.len Translated.vm_constants_NetworkZnnRewardConfig_init = 11#64 := by decide
+  have hlast : Go.oobS Translated.vm_constants_NetworkZnnRewardConfig_init (11#64 - 1#64) = false := by decide
+  have hL : (Gen.NetworkZnnRewardConfig.getLast?).map (BitVec.ofInt 64)
+      = some (Go.atW Translated.vm_constants_NetworkZnnRewardConfig_init (11#64 - 1#64)) := by decide
+  have hI : ∀ t, t < 11 → (Gen.NetworkZnnRewardConfig[t]?).map (BitVec.ofInt 64)
+      = some (Translated.vm_constants_NetworkZnnRewardConfig_init.getD t 0#64) := by decide
+  have hT : Translated.vm_constants_NetworkZnnRewardConfig_init.length = 11 := by decide
+  have hG : Gen.NetworkZnnRewardConfig.length = 11 := by decide
+  have hD : Translated.vm_constants_RewardTickDurationInEpochs_init = 30#64 := by decide
+  have he := e.isLt
+  unfold Translated.NetworkZnnRewardPerEpoch Rewards.networkZnnRewardPerEpoch Rewards.networkRewardPerEpoch
+  simp only [hlen, hlast, hD, hG, Gen.RewardTickDurationInEpochs, two64, two63]
+  have hq : (e / 30#64).toNat = e.toNat / 30 := by simp [BitVec.toNat_udiv]
+  have hqi : (e / 30#64).toInt = ((e.toNat / 30 : Nat) : Int) := by rw [toInt_eq, hq]; split <;> omega
+  have h11 : (11#64).toInt = 11 := by decide
+  have hm : e.toNat % 18446744073709551616 = e.toNat := Nat.mod_eq_of_lt he
+  simp only [hqi, h11, hm]
+  have hsmall : ¬ (e.toNat / 30 ≥ 9223372036854775808) := by omega
+  have h30 : (30#64 == 0#64) = false := by decide
+  simp only [hsmall, if_false, h30, Bool.false_eq_true, decide_eq_true_eq, Int.toNat_natCast, Nat.reduceEqDiff]
+  by_cases hge : ((e.toNat / 30 : Nat) : Int) ≥ 11
+  · have hge' : ((e.toNat / 30 : Nat) : Int) ≥ ((11 : Nat) : Int) := hge
+    simp only [hge, hge', if_true]
+    have := hL
+    cases hh : Gen.NetworkZnnRewardConfig.getLast? with
+    | none => rw [hh] at this; simp at this
+    | some v => rw [hh] at this; simp only [Option.map_some, Option.some.injEq] at this; simp only [rewardEmb, this]
+  · have hge' : ¬ ((e.toNat / 30 : Nat) : Int) ≥ ((11 : Nat) : Int) := hge
+    have hneg : ¬ ((e.toNat / 30 : Nat) : Int) < 0 := by omega
+    have hlt : e.toNat / 30 < 11 := by omega
+    have hoob : Go.oobS Translated.vm_constants_NetworkZnnRewardConfig_init (e / 30#64) = false := by
+      simp only [Go.oobS, hqi, hq, hT, Bool.or_eq_false_iff, decide_eq_false_iff_not]; omega
+    simp only [hge, hge', hneg, if_false, hoob, Bool.false_eq_true, Go.atW, hq]
+    have := hI _ hlt
+    cases hh : Gen.NetworkZnnRewardConfig[e.toNat / 30]? with
+    | none => rw [hh] at this; simp at this
+    | some v => rw [hh] at this; simp only [Option.map_some, Option.some.injEq] at this; simp only [rewardEmb, this]
+
+theorem NetworkQsrRewardPerEpoch_translation_refines_model (e : BitVec 64) :
+    Translated.NetworkQsrRewardPerEpoch e = rewardEmb (Rewards.networkQsrRewardPerEpoch e.toNat) := by
+  have hlen : Go.len Translated.vm_constants_NetworkQsrRewardConfig_init = 8#64 := by decide
+  have hlast : Go.oobS Translated.vm_constants_NetworkQsrRewardConfig_init (8#64 - 1#64) = false := by decide
+  have hL : (Gen.NetworkQsrRewardConfig.getLast?).map (BitVec.ofInt 64)
+      = some (Go.atW Translated.vm_constants_NetworkQsrRewardConfig_init (8#64 - 1#64)) := by decide
+  have hI : ∀ t, t < 8 → (Gen.NetworkQsrRewardConfig[t]?).map (BitVec.ofInt 64)
+      = some (Translated.vm_constants_NetworkQsrRewardConfig_init.getD t 0#64) := by decide
+  have hT : Translated.vm_constants_NetworkQsrRewardConfig_init.length = 8 := by decide
+  have hG : Gen.NetworkQsrRewardConfig.length = 8 := by decide
+  have hD : Translated.vm_constants_RewardTickDurationInEpochs_init = 30#64 := by decide
+  have he := e.isLt
+  unfold Translated.NetworkQsrRewardPerEpoch Rewards.networkQsrRewardPerEpoch Rewards.networkRewardPerEpoch
+  simp only [hlen, hlast, hD, hG, Gen.RewardTickDurationInEpochs, two64, two63]
+  have hq : (e / 30#64).toNat = e.toNat / 30 := by simp [BitVec.toNat_udiv]
+  have hqi : (e / 30#64).toInt = ((e.toNat / 30 : Nat) : Int) := by rw [toInt_eq, hq]; split <;> omega
+  have h8 : (8#64).toInt = 8 := by decide
+  have hm : e.toNat % 18446744073709551616 = e.toNat := Nat.mod_eq_of_lt he
+  simp only [hqi, h8, hm]
+  have hsmall : ¬ (e.toNat / 30 ≥ 9223372036854775808) := by omega
+  have h30 : (30#64 == 0#64) = false := by decide
+  simp only [hsmall, if_false, h30, Bool.false_eq_true, decide_eq_true_eq, Int.toNat_natCast, Nat.reduceEqDiff]
+  by_cases hge : ((e.toNat / 30 : Nat) : Int) ≥ 8
+  · have hge' : ((e.toNat / 30 : Nat) : Int) ≥ ((8 : Nat) : Int) := hge
+    simp only [hge, hge', if_true]
+    have := hL
+    cases hh : Gen.NetworkQsrRewardConfig.getLast? with
+    | none => rw [hh] at this; simp at this
+    | some v => rw [hh] at this; simp only [Option.map_some, Option.some.injEq] at this; simp only [rewardEmb, this]
+  · have hge' : ¬ ((e.toNat / 30 : Nat) : Int) ≥ ((8 : Nat) : Int) := hge
+    have hneg : ¬ ((e.toNat / 30 : Nat) : Int) < 0 := by omega
+    have hlt : e.toNat / 30 < 8 := by omega
+    have hoob : Go.oobS Translated.vm_constants_NetworkQsrRewardConfig_init (e / 30#64) = false := by
+      simp only [Go.oobS, hqi, hq, hT, Bool.or_eq_false_iff, decide_eq_false_iff_not]; omega
+    simp only [hge, hge', hneg, if_false, hoob, Bool.false_eq_true, Go.atW, hq]
+    have := hI _ hlt
+    cases hh : Gen.NetworkQsrRewardConfig[e.toNat / 30]? with
+    | none => rw [hh] at this; simp at this
+    | some v => rw [hh] at this; simp only [Option.map_some, Option.some.injEq] at this; simp only [rewardEmb, this]
+
 end ZV.Translated
